@@ -64,6 +64,7 @@ class FakeSocket:
         self.peer_closed = False
         self.calls = []
         self.blocking = True
+        self.blocked = 0  # sends refused with EWOULDBLOCK
 
     # --- harness side ---
     def deliver(self, data):
@@ -125,6 +126,7 @@ class FakeSocket:
         data = bytes(data)
         n = len(data) if self.room is None else min(len(data), self.room)
         if n == 0 and len(data) > 0:
+            self.blocked += 1
             raise OSError(errno.EWOULDBLOCK, "would block")
         if self.room is not None:
             self.room -= n
